@@ -55,6 +55,12 @@ func runC11(t *testing.T, rc *core.RunCtx) {
 		cfg.pAuto = 2
 		cfg.pRemove = 3
 	}
+	// a quarter of the handler runs have panicking handlers: what the machine
+	// rebuilds after a fault is part of "the same machine" too
+	if cfg.handlers && rc.Plan.Draw(4) == 0 {
+		cfg.pFault = 8
+		cfg.faults = []int{hbPanicErr, hbPanicVal}
+	}
 	p := genPlan(rc.Plan, &cfg)
 	rc.Desc = p.String()
 	rc.Shape = rc.Desc
